@@ -297,9 +297,13 @@ func (impl Implementation) Dlahqr(wantt, wantz bool, n, ilo, ihi int, h []float6
 				v[1] = h21s * (h[m*ldh+m] + h[(m+1)*ldh+m+1] - rt1r - rt2r)
 				v[2] = h21s * h[(m+2)*ldh+m+1]
 				s = math.Abs(v[0]) + math.Abs(v[1]) + math.Abs(v[2])
-				v[0] /= s
-				v[1] /= s
-				v[2] /= s
+				if s != 0 {
+					// v is exactly zero when the products above
+					// underflow; dividing would fill H with NaN.
+					v[0] /= s
+					v[1] /= s
+					v[2] /= s
+				}
 				if m == l {
 					break
 				}
